@@ -1,7 +1,7 @@
 (** C03 — Recursive methods follow their documented recurrences.
     Only statements and [exact]; proofs in Proofs/Recursive.v (NumR). *)
 From Yata Require Import Base.Prelude Base.Num Base.NumR Core.Window Core.Candle
-  Spec.Hist Spec.MethodDefs Methods.Basic Proofs.MethodsCommon Proofs.Recursive Proofs.Tsi.
+  Spec.Hist Spec.MethodDefs Methods.Basic Proofs.MethodsCommon Proofs.Recursive Proofs.Tsi Proofs.Vidya.
 From Yata Require Import Base.NumF64.
 From Coq Require Import Reals Floats.
 Open Scope Z_scope.
@@ -52,6 +52,12 @@ Theorem C03_tsi short long (v : R) xs x : 1 <= short <= pmax - 1 -> 1 <= long <=
   exists s0, tsi_new short long v = Ok s0 /\
     snd (tsi_next (steps tsi_next s0 xs) x) = tsi_def short long v (rev (xs ++ [x])).
 Proof. exact (tsi_correct short long v xs x). Qed.
+(** Vidya in exact arithmetic: EMA whose factor is scaled by |CMO| of the last n changes; the input itself on a flat window
+    (on binary64 this is refuted below: KF-C03-vidya-residue) *)
+Theorem C03_vidya n (v : R) xs x : 1 <= n <= pmax - 1 ->
+  exists s0, vidya_new n v = Ok s0 /\
+    snd (vidya_next (steps vidya_next s0 xs) x) = vidya_rec (Z.to_nat n) v (rev (xs ++ [x])).
+Proof. exact (vidya_correct n v xs x). Qed.
 (** windowless ADI: running total of clv * volume *)
 Theorem C03_adi_cumulative (c0 : candle (N := NumR)) cs c : 2 <= pmax ->
   exists s0, adi_new 0 c0 = Ok s0 /\
